@@ -194,7 +194,12 @@ func genArgs(r *Rand) []KV {
 		out = append(out, KV{"l", Val{K: "list", L: l}})
 	}
 	if r.Chance(0.35) {
-		out = append(out, KV{"m", vMap(KV{"x", vInt(int64(r.Range(0, 9)))}, KV{"y", vStr(randWord(r, 1, 4))})})
+		m := vMap(KV{"x", vInt(int64(r.Range(0, 9)))}, KV{"y", vStr(randWord(r, 1, 4))})
+		if r.Chance(0.3) {
+			// a field that is present and holds an explicit null
+			m.M = append(m.M, KV{"z", vNull()})
+		}
+		out = append(out, KV{"m", m})
 	}
 	if r.Chance(0.25) {
 		out = append(out, KV{"f", vFloat(float64(r.Range(-20, 20)) + 0.5)})
@@ -288,6 +293,18 @@ func likePattern(r *Rand, s string, match bool) string {
 // genStmt produces a statement over existing arguments with the wanted truth
 // value. Only top-level false statements may use a definitely absent path.
 func genStmt(r *Rand, a []KV, want bool, depth int, top bool) Stmt {
+	st := genStmt0(r, a, want, depth, top)
+	switch st.Op {
+	case "==", "<", "<=", ">", ">=", "like":
+		// an optional selector over a value that IS there binds like a plain one
+		if top && len(st.Sel) > 1 && !strings.ContainsAny(st.Sel, "[?") && r.Chance(0.2) {
+			st.Sel += "?"
+		}
+	}
+	return st
+}
+
+func genStmt0(r *Rand, a []KV, want bool, depth int, top bool) Stmt {
 	if len(a) == 0 {
 		if want {
 			// vacuous truth over no arguments: not(absent == 1) would lean on missing-data rules; use an and of nothing is excluded too.
@@ -488,6 +505,19 @@ func genStmt(r *Rand, a []KV, want bool, depth int, top bool) Stmt {
 	case "map":
 		x, _ := v.get("x")
 		y, _ := v.get("y")
+		if z, ok := v.get("z"); ok && z.K == "null" && top && r.Chance(0.5) {
+			// null is a value: it is there, it equals null and nothing else, it is not ordered
+			if want {
+				return Stmt{Op: "==", Sel: sel + Pick(r, []string{".z", ".z?"}), Val: ptr(vNull())}
+			}
+			return Pick(r, []Stmt{
+				{Op: "==", Sel: sel + ".z?", Val: ptr(vInt(1))},
+				{Op: "==", Sel: sel + ".z?", Val: ptr(vStr("user"))},
+				{Op: "<=", Sel: sel + ".z?", Val: ptr(vInt(10))},
+				{Op: "like", Sel: sel + ".z?", Pat: "*"},
+				{Op: "==", Sel: sel + ".z", Val: ptr(vBool(false))},
+			})
+		}
 		if want {
 			return Pick(r, []Stmt{
 				{Op: "==", Sel: sel + ".x", Val: ptr(x)},
@@ -657,6 +687,10 @@ func (g *wgen) bounds(nbf, exp **int64, tcSec int64) {
 	margins := []int64{1, 2, 60, 3600, 86400 * 400, 86400 * 365 * 30, 86400 * 365 * 200} // (a time.Duration spans 292 years: With…In cannot express more)
 	if r.Chance(0.5) {
 		*exp = ptr(tcSec + 1 + Pick(r, margins))
+		if r.Chance(0.2) {
+			// "never expires" as people write it: absolute instants centuries and millennia ahead
+			*exp = ptr(Pick(r, farFuture) - simEpochUnix)
+		}
 	}
 	if r.Chance(0.3) {
 		v := tcSec - Pick(r, margins)
@@ -667,6 +701,10 @@ func (g *wgen) bounds(nbf, exp **int64, tcSec int64) {
 		*nbf = &v
 	}
 }
+
+// farFuture: absolute Unix seconds far ahead: 2300, 3000, 9999-12-31, 1e11 (year 5138), 1e12,
+// 1.5e12, and the largest second count a token may carry (2^53-1).
+var farFuture = []int64{10413792000, 32503680000, 253402300799, 100000000000, 1000000000000, 1500000000000, 9007199254740991}
 
 func (g *wgen) emit(s WStep) { g.steps = append(g.steps, s) }
 
@@ -685,11 +723,18 @@ func (g *wgen) issueDlg(d DlgSpec) {
 	if (d.Exp != nil && *d.Exp <= nowSec+1) || (d.Nbf != nil && *d.Nbf <= nowSec+1) {
 		d.Relative = true
 	}
+	const span = 200 * 365 * 86400 // With...In takes a time.Duration: no more than ~292 years
+	if (d.Exp != nil && *d.Exp-nowSec > span) || (d.Nbf != nil && *d.Nbf-nowSec > span) {
+		d.Relative = false
+	}
 	g.emit(WStep{Op: "delegate", Dlg: &d})
 }
 
 func (g *wgen) issueInv(v InvSpec) {
 	v.Relative = g.r.Chance(0.4)
+	if v.Exp != nil && *v.Exp-g.now/1_000_000_000 > 200*365*86400 {
+		v.Relative = false
+	}
 	g.emit(WStep{Op: "invoke", Inv: &v})
 }
 
@@ -879,6 +924,9 @@ func genWorld(r *Rand, cfg GenCfg) Plan {
 					nv.S = randWord(r, 0, 4)
 				}
 				ck.HookVal = &nv
+				if ck.Hook == "replace" && r.Chance(0.3) {
+					ck.HookVal = ptr(vNull())
+				}
 			} else {
 				ck.HookKey = "zz"
 				ck.HookVal = ptr(vInt(int64(r.Range(0, 5))))
@@ -1032,7 +1080,9 @@ func (g *wgen) sweep(c, foreign *chain, vlabels []string) {
 	var bounds []int64
 	labels := []string{c.inv.Label}
 	add := func(b *int64) {
-		if b != nil {
+		// (instants are int64 nanoseconds after the simulation epoch: bounds more than ~290 years
+		// away have no representable neighbourhood and are left to the checks at ordinary instants)
+		if b != nil && *b < 9_000_000_000 && *b > -9_000_000_000 {
 			bounds = append(bounds, *b*1_000_000_000)
 		}
 	}
@@ -1041,10 +1091,11 @@ func (g *wgen) sweep(c, foreign *chain, vlabels []string) {
 		add(d.Nbf)
 		add(d.Exp)
 		if d.SubMilli != 0 {
-			if d.Exp != nil {
+			near := func(b *int64) bool { return b != nil && *b < 9_000_000_000 && *b > -9_000_000_000 }
+			if near(d.Exp) {
 				bounds = append(bounds, *d.Exp*1_000_000_000+d.SubMilli*1_000_000)
 			}
-			if d.Nbf != nil {
+			if near(d.Nbf) {
 				bounds = append(bounds, *d.Nbf*1_000_000_000+d.SubMilli*1_000_000)
 			}
 		}
@@ -1313,6 +1364,9 @@ func (g *wgen) deviateW(c *chain, tcSec int64) {
 		g.note("W:expired@" + pos)
 	} else {
 		c.dlgs[k].Nbf = ptr(tcSec + 1 + m)
+		if r.Chance(0.25) {
+			c.dlgs[k].Nbf = ptr(Pick(r, farFuture) - simEpochUnix)
+		}
 		if c.dlgs[k].Exp != nil && *c.dlgs[k].Exp < *c.dlgs[k].Nbf {
 			c.dlgs[k].Exp = nil
 		}
